@@ -251,7 +251,7 @@ def read_range_input(specification: str) -> List[float]:
         step = 0.005
         if len(parts) == 3:
             step = float(parts[2])
-        values = np.arange(min_value, max_value + step, step).tolist()
+        values = np.arange(min_value, max_value + step/2, step).tolist()
     elif ',' in specification:
         values = [float(s) for s in specification.split(',')]
     else:
